@@ -6,6 +6,8 @@ package main
 // with a unique return statement is the value returned there.
 
 import (
+	"go/token"
+
 	"golang.org/x/tools/go/ssa"
 )
 
@@ -137,11 +139,143 @@ func originIn(scope *ssa.Function, v ssa.Value) ssa.Value {
 		case *ssa.ChangeInterface:
 			v = x.X
 			continue
+		case *ssa.UnOp:
+			// a local variable that lives in memory because a function literal captures it, assigned exactly once
+			// (typically a parameter): reading it gives that value
+			if sv := finalCellValue(x); sv != nil {
+				v = sv
+				continue
+			}
+			return v
 		default:
 			return v
 		}
 	}
 	return v
+}
+
+// finalCellValue: u loads a local variable kept in memory (an Alloc, or the captured variable of a function literal
+// bound to one) that is assigned exactly once in the function and in all the literals that capture it, by a store that
+// comes before every read in the function itself; the value assigned, else nil.
+func finalCellValue(u *ssa.UnOp) ssa.Value {
+	if u.Op != token.MUL {
+		return nil
+	}
+	var cell *ssa.Alloc
+	switch a := u.X.(type) {
+	case *ssa.Alloc:
+		cell = a
+	case *ssa.FreeVar:
+		cell = allocOfFreeVar(a, 0)
+	}
+	if cell == nil || cell.Referrers() == nil {
+		return nil
+	}
+	var stores []*ssa.Store
+	okUse := true
+	var scan func(addr ssa.Value, depth int)
+	scan = func(addr ssa.Value, depth int) {
+		if addr.Referrers() == nil || depth > 3 {
+			okUse = false
+			return
+		}
+		for _, rf := range *addr.Referrers() {
+			switch y := rf.(type) {
+			case *ssa.Store:
+				if y.Addr == addr {
+					stores = append(stores, y)
+				} else {
+					okUse = false // the address itself is stored somewhere
+				}
+			case *ssa.UnOp, *ssa.DebugRef:
+			case *ssa.MakeClosure:
+				fn, _ := y.Fn.(*ssa.Function)
+				if fn == nil {
+					okUse = false
+					continue
+				}
+				for i, b := range y.Bindings {
+					if b == addr && i < len(fn.FreeVars) {
+						scan(fn.FreeVars[i], depth+1)
+					}
+				}
+			default:
+				okUse = false
+			}
+		}
+	}
+	scan(cell, 0)
+	if !okUse || len(stores) != 1 {
+		return nil
+	}
+	st := stores[0]
+	if st.Parent() != cell.Parent() {
+		return nil
+	}
+	// the store precedes the reads of the defining function (literals are created after it or read later)
+	for _, rf := range *cell.Referrers() {
+		ld, isLoad := rf.(*ssa.UnOp)
+		if !isLoad {
+			if mc, isMC := rf.(*ssa.MakeClosure); isMC && !precedes(st, mc) {
+				return nil
+			}
+			continue
+		}
+		if !precedes(st, ld) {
+			return nil
+		}
+	}
+	return st.Val
+}
+
+// precedes: a comes before b on every path to b (same function).
+func precedes(a, b ssa.Instruction) bool {
+	if a.Block() == b.Block() {
+		ia, ib := -1, -1
+		for i, in := range a.Block().Instrs {
+			if in == a {
+				ia = i
+			}
+			if in == b {
+				ib = i
+			}
+		}
+		return ia < ib
+	}
+	return a.Block().Dominates(b.Block())
+}
+
+// allocOfFreeVar: the local variable of the enclosing function a captured variable is bound to, when the literal is
+// created at exactly one place.
+func allocOfFreeVar(fv *ssa.FreeVar, depth int) *ssa.Alloc {
+	fn := fv.Parent()
+	if fn == nil || fn.Parent() == nil || depth > 3 {
+		return nil
+	}
+	idx := -1
+	for i, f := range fn.FreeVars {
+		if f == fv {
+			idx = i
+		}
+	}
+	var found ssa.Value
+	n := 0
+	allInstrs(fn.Parent(), func(in ssa.Instruction) {
+		if mc, ok := in.(*ssa.MakeClosure); ok && mc.Fn == ssa.Value(fn) && idx >= 0 && idx < len(mc.Bindings) {
+			found = mc.Bindings[idx]
+			n++
+		}
+	})
+	if n != 1 {
+		return nil
+	}
+	switch b := found.(type) {
+	case *ssa.Alloc:
+		return b
+	case *ssa.FreeVar:
+		return allocOfFreeVar(b, depth+1)
+	}
+	return nil
 }
 
 // originNN is origin for uses where a nil/zero alternative is irrelevant (the value is only used where it has been
@@ -247,6 +381,13 @@ func calledLiteral(f *ssa.Function) bool {
 		for _, rf := range *mc.Referrers() {
 			switch x := rf.(type) {
 			case *ssa.Call:
+				if x.Call.Value == ssa.Value(mc) {
+					used = true
+					continue
+				}
+				ok = false
+			case *ssa.Defer:
+				// deferred by the function that defines it: runs on its behalf when it returns
 				if x.Call.Value == ssa.Value(mc) {
 					used = true
 					continue
